@@ -65,15 +65,16 @@ def fmt_of(d):
     s += fl[::-1] if d.get('flags', 0) & 64 else fl
     s += {0: '', 1: str(d.get('width', 0)), 2: '*'}[d.get('wmode', 0)]
     s += {0: '', 1: '.' + str(d.get('prec', 0)), 2: '.*', 3: '.'}[d.get('pmode', 0)]
-    return s + LMS[d.get('lm', 0)] + CONVS[d['conv']]
+    stars = [str(d[k]) for (m, k) in (('wmode', 'width'), ('pmode', 'prec')) if d.get(m, 0) == 2 and d.get(k, NOPIN) != NOPIN]
+    return s + LMS[d.get('lm', 0)] + CONVS[d['conv']] + (('(' + ','.join(stars) + ')') if stars else '')
 
 def e2e_family(tier):
     """a covering family of pinned format shapes: every conversion x length modifier, each with several flag / width / precision shapes
     drawn round-robin from the lists below (all pairs of (flag set, width kind), (flag set, precision kind) occur for the integer conversions)"""
     FL = [0, 1, 16, 2, 4, 8, 17, 18, 20, 24, 9, 32, 48, 3, 6, 1 | 64 | 16, 2 | 16 | 64 | 4, 63 & ~8 | 64, 8 | 16 | 1 | 64]
-    W = [(0, 0), (1, 1), (1, 5), (1, 12), (1, 70), (2, 0)]
-    P = [(0, 0), (3, 0), (1, 0), (1, 1), (1, 7), (1, 70), (2, 0)]
-    per = 3 if tier == 'quick' else 14
+    W = [(0, 0), (1, 1), (1, 5), (1, 12), (1, 70), (2, 6), (2, -9), (2, 0), (2, 70), (2, -70)]
+    P = [(0, 0), (3, 0), (1, 0), (1, 1), (1, 7), (1, 70), (2, 3), (2, -1), (2, 0), (2, 70)]
+    per = 2 if tier == 'quick' else 14
     out = []; seen = set()
     for conv in range(12):
         for lm in range(8):
@@ -89,13 +90,13 @@ def e2e_family(tier):
                         fl = 0; w = (0, 0); p = (0, 0)
                     else: continue
                 if CONVS[conv] not in 'diuoxXbB': vc = 0
-                d = {'conv': conv, 'lm': lm, 'flags': fl, 'wmode': w[0], 'width': w[1] if w[0] == 1 else NOPIN, 'pmode': p[0], 'prec': p[1] if p[0] == 1 else NOPIN, 'pos': 0, 'vclass': vc}
+                d = {'conv': conv, 'lm': lm, 'flags': fl, 'wmode': w[0], 'width': w[1] if w[0] else NOPIN, 'pmode': p[0], 'prec': p[1] if p[0] in (1, 2) else NOPIN, 'pos': 0, 'vclass': vc}
                 key = (fmt_of(d), vc)
                 if key in seen: continue
                 seen.add(key); out.append(d); k += 1
     # the shapes of c s p % (only '-' / width / precision are defined for them)
-    for d in [{'conv': 6}, {'conv': 6, 'flags': 1, 'wmode': 1, 'width': 4}, {'conv': 6, 'wmode': 2}, {'conv': 7}, {'conv': 7, 'wmode': 1, 'width': 8, 'pmode': 1, 'prec': 3},
-              {'conv': 7, 'flags': 1, 'wmode': 2, 'pmode': 2}, {'conv': 7, 'pmode': 3}, {'conv': 8}, {'conv': 9}]:
+    for d in [{'conv': 6}, {'conv': 6, 'flags': 1, 'wmode': 1, 'width': 4}, {'conv': 6, 'wmode': 2, 'width': -3}, {'conv': 7}, {'conv': 7, 'wmode': 1, 'width': 8, 'pmode': 1, 'prec': 3},
+              {'conv': 7, 'flags': 1, 'wmode': 2, 'width': 7, 'pmode': 2, 'prec': 2}, {'conv': 7, 'wmode': 2, 'width': -6, 'pmode': 2, 'prec': -1}, {'conv': 7, 'pmode': 3}, {'conv': 8}, {'conv': 9}]:
         dd = {'lm': 0, 'flags': 0, 'wmode': 0, 'width': NOPIN, 'pmode': 0, 'prec': NOPIN, 'pos': 0, 'vclass': 0}; dd.update(d)
         if (fmt_of(dd), 0) not in seen: seen.add((fmt_of(dd), 0)); out.append(dd)
     return out
@@ -112,21 +113,40 @@ def positional_family(tier):
     for seq in fam:
         ds = []
         for j, (pos, (conv, lm)) in enumerate(seq):
-            ds.append({'conv': conv, 'lm': lm, 'flags': 0 if conv in (6, 7) else [0, 16, 1][j % 3], 'wmode': 1 if j % 2 else 0, 'width': 4 if j % 2 else NOPIN, 'pmode': 0, 'prec': NOPIN, 'pos': pos, 'vclass': 0})
+            ds.append({'conv': conv, 'lm': lm, 'flags': 0 if conv in (6, 7) else [0, 16, 1][j % 3], 'wmode': 1 if j % 2 else 0, 'width': 4 if j % 2 else NOPIN, 'pmode': 0, 'prec': NOPIN, 'pos': pos, 'vclass': 0 if CONVS[conv] in 'cs' else ([0, 3, 5][pos - 1] if sum(1 for (p2, _) in seq if p2 == pos) == 1 else 2 + pos)})   # value class per ARGUMENT; an argument printed twice is a boundary constant (cost)
         out.append(ds)
     return out
 
-FMT_TEMPLATES = [
-    # (template, decimal rendering possible, width bound, quick?)   'D' = solver-chosen digit, '?' = solver-chosen byte (not a brace)
-    ('{}', 1, 0, 1), ('a{}b{}c{}d', 1, 0, 1), ('{}{}{}{}', 1, 0, 1), ('{D}', 1, 0, 1), ('{DD}', 1, 0, 1), ('x{D}y{D}z', 1, 0, 1), ('{D}{}', 1, 0, 0),
-    ('{:x}', 0, 0, 1), ('{:X}', 0, 0, 1), ('{:b}', 0, 0, 1), ('{:o}', 0, 0, 1), ('{:d}', 1, 0, 1), ('{:i}', 1, 0, 1), ('{:c}', 0, 0, 1), ('{D:c}', 0, 0, 1), ('{:}', 1, 0, 1), ('{D:}', 1, 0, 1),
-    ('{:0Dx}', 0, 9, 1), ('{:1Dx}', 0, 19, 1), ('{D:01DX}', 0, 19, 1), ('{:0Dd}', 1, 9, 1), ('{D:Dd}', 1, 9, 1), ('{:D}', 1, 9, 1), ('{:0D}', 1, 9, 1), ('{:00D}', 1, 9, 0), ('{D:0Do}', 0, 9, 1), ('{D:1Db}', 0, 19, 1),
-    ('{:070d}', 1, 70, 1), ('{D:70x}', 0, 70, 0), ('{:064b}', 0, 64, 0),
-    ('{:08X}{}', 1, 8, 1), ('{:0Dx}{:d}{:c}', 1, 9, 1), ('{D:X}{D:Dd}', 1, 9, 1), ('{:b}{:Do}', 0, 9, 0),          # a later spec must not inherit options
-    ('{{}', 1, 0, 1), ('{{{}', 1, 0, 1), ('}{', 1, 0, 1), ('{', 1, 0, 1), ('{:', 1, 0, 1), ('{:0D', 1, 0, 1), ('ab{', 1, 0, 1), ('{}}', 1, 0, 1), ('{{}}', 1, 0, 1), ('a{{b', 1, 0, 0),
-    ('{:h}', 1, 0, 1), ('{:?}', 1, 0, 1), ('{?}', 1, 0, 1), ('{D?}', 1, 0, 1), ('{:D?}', 1, 9, 1), ('{:x?}', 0, 0, 1), ('{::}', 1, 0, 1), ('{D:D:}', 1, 9, 0), ('{: x}', 0, 0, 1), ('{?:x}', 0, 0, 1),
-    ('{:xD}', 0, 0, 1), ('{:-Dd}', 1, 0, 0), ('{D}{?}{}', 1, 0, 0), ('{:h}{}', 1, 0, 1), ('{D}{D}{D}', 1, 0, 0),
-]
+def fmt_templates(tier):
+    """(template, value classes): templates are concrete byte strings (a solver-chosen digit or stray byte would make the SHAPE of the expected output symbolic, which
+    does not finish); generated from patterns by substituting D (digit) and ? (stray byte) from small sets.  Value class 0 = solver-chosen (int, unsigned long, char)."""
+    quick = tier == 'quick'
+    pats = [  # (pattern, quick value classes, thorough value classes)
+        ('{}', [0, 3, 4], [0, 1, 2, 3, 4, 5, 6, 7]), ('a{}b{}c{}d', [3, 4], [0, 3, 4, 5]), ('{}{}{}{}', [4], [0, 3, 4]), ('{D}', [0], [0, 3, 4]), ('{DD}', [3], [0, 3]), ('x{D}y{D}z', [3], [0, 4]), ('{D}{}', [5], [0, 5]),
+        ('{:x}', [0, 3, 4], [0, 1, 2, 3, 4, 5]), ('{:X}', [0], [0, 3, 4]), ('{:b}', [3, 4], [0, 3, 4, 5]), ('{:o}', [0], [0, 3, 4]), ('{:d}', [0, 4], [0, 3, 4, 5]), ('{:i}', [0], [0, 3, 4]), ('{:c}', [0], [0, 3, 6]),
+        ('{D:c}', [0], [0, 6]), ('{:}', [0], [0, 4]), ('{D:}', [0], [0, 4]), ('{D:x}', [0], [0, 3, 4]), ('{D:b}', [3], [0, 3, 4]), ('{D:o}', [4], [0, 3, 4]),
+        ('{:0Dx}', [0], [0, 3, 4]), ('{:1Dx}', [0], [0, 3]), ('{D:01DX}', [0], [0, 3, 4]), ('{:0Dd}', [0, 4], [0, 3, 4, 5]), ('{D:Dd}', [0], [0, 3, 4]), ('{:D}', [0], [0, 3]), ('{:0D}', [0], [0, 4]), ('{:00D}', [3], [0, 3]),
+        ('{D:0Do}', [0], [0, 3]), ('{D:1Db}', [3], [0, 3]), ('{:012d}', [0], [0, 3, 4]), ('{:070d}', [4], [0, 4]), ('{D:70x}', [3], [0, 3]), ('{:064b}', [3], [3, 4]), ('{D:070b}', [], [3, 4]),
+        ('{:08X}{}', [0], [0, 3, 4]), ('{:0Dx}{:d}{:c}', [4], [0, 4]), ('{D:X}{D:Dd}', [3], [0, 3]), ('{:b}{:Do}', [3], [3, 4]), ('{:09d}{}{}', [5], [0, 5]),          # a later spec must not inherit options
+        ('{{}', [0], [0]), ('{{{}', [0], [0, 4]), ('}{', [0], [0]), ('{', [0], [0]), ('{:', [0], [0]), ('{:0D', [0], [0]), ('ab{', [0], [0]), ('{}}', [0], [0, 4]), ('{{}}', [0], [0]), ('a{{b', [0], [0]), ('{{{{', [0], [0]),
+        ('{:h}', [0], [0]), ('{:?}', [0], [0]), ('{?}', [0], [0]), ('{D?}', [0], [0]), ('{:D?}', [0], [0]), ('{:x?}', [0], [0]), ('{::}', [0], [0]), ('{D:D:}', [0], [0]), ('{: x}', [0], [0]), ('{?:x}', [0], [0]),
+        ('{:xD}', [0], [0]), ('{:-Dd}', [0], [0]), ('{D}{?}{}', [3], [0, 3]), ('{:h}{}', [0], [0, 4]), ('{D}{D}{D}', [4], [0, 4]), ('{:D?}{:Dx}', [3], [0, 3]), ('{:Dc}', [], []),
+    ]
+    DIG = '0213' if quick else '0123945678'
+    STRAY = 'h -' if quick else 'h -0x:%Xq'
+    out = []; seen = set()
+    for (pat, fq, ft) in pats:
+        nvar = 1 if ('D' not in pat and '?' not in pat) else ((2 if len(pat) < 6 else 1) if quick else 6)
+        for v in range(nvar):
+            t = ''; k = v
+            for ch in pat:
+                if ch == 'D': t += DIG[k % len(DIG)]; k += 1 + v
+                elif ch == '?': t += STRAY[k % len(STRAY)]; k += 1
+                else: t += ch
+            if t in seen: continue
+            seen.add(t)
+            out.append((t, fq if quick else ft))
+    return out
 
 def queries(tier):
     qs = []
@@ -134,18 +154,14 @@ def queries(tier):
     WB = 12 if quick else 24           # symbolic width/precision bound of the (B) queries (larger values: concrete, in e2e.* and thorough opts.w70.*)
     D10 = 3                            # radix-10 digit bound of the layout queries
     # ---------------------------------------------------------------- (A) parser
-    for nd, only_q in ((1, True), (2, True), (3, False)):
-        if quick and not only_q: continue
-        qs.append(PQ('parse.n%d' % nd, 'harness_parse', {}, 70, 1, ndir=nd, timeout=1500, mem_gb=6,
-                     bounds={'directives': nd, 'flags': 'any subset of - + space # 0 \', either order', 'width': 'none / 1..70 / * with argument -70..70', 'precision': 'none / . / .0...70 / .* with argument -2..70',
-                             'length modifier': 'none hh h l ll z t j', 'conversion': 'd i u o x X c s p % b B', 'n$': 'none or 1..3 on every directive', 'literal text': 'optional byte before, between, after', 'argument words': 'arbitrary 64-bit'},
-                     what='printf_format hands the agent exactly the directive written (%d directive%s): conversion, length modifier, flags, width, precision, n$; * arguments and the value are fetched in order; literal text passes through' % (nd, 's' if nd > 1 else '')))
+    # (measured: with the directive's pieces solver-chosen the parse position is symbolic and symbolic execution of printf_format does not finish in 25 min, neither merged nor
+    #  --paths; the parser is therefore exercised through the e2e.* family of pinned shapes; harness_parse stays as a translator-validation entry)
     # ---------------------------------------------------------------- (B) conversion back ends
     int_convs = [0, 2, 3, 4, 5, 10] if quick else [0, 1, 2, 3, 4, 5, 10, 11]
-    lms = [0, 1, 2, 3] if quick else list(range(8))
     for conv in int_convs:
+        lms = ([0] if conv == 5 else [0, 1, 2, 3]) if quick else list(range(8))
         for lm in lms:
-            vcs = [0] + ([3, 4, 5] if conv in (0, 2, 3, 4) else []) if quick else list(range(9))
+            vcs = ([0] + ([3, 4, 5] if conv in (0, 2, 3, 4) and lm in (0, 3) else [])) if quick else list(range(9))
             for vc in vcs:
                 dg = ndigits(conv, vc, D10)
                 qs.append(PQ('opts.%s%s.v%d' % (LMS[lm], CONVS[conv], vc), 'harness_opts', {'PINS': pins({'conv': conv, 'lm': lm, 'vclass': vc})}, WB, dg,
@@ -163,53 +179,62 @@ def queries(tier):
                              bounds={'conversion': '%l' + CONVS[conv], 'width': '0..70', 'precision': 'absent or 0..70'}, what='do_printf_ints %%l%s with width and precision up to 70' % CONVS[conv]))
     # ---------------------------------------------------------------- (C) whole pipeline on pinned shapes
     for d in e2e_family(tier):
-        f = fmt_of(d); wm = max(d['width'] if d['wmode'] == 1 else 12 if d['wmode'] == 2 else 0, d['prec'] if d['pmode'] == 1 else 12 if d['pmode'] == 2 else 0, 1)
-        qs.append(PQ('e2e[%s].v%d' % (f, d['vclass']), 'harness_layout', {'PINS': pins(d)}, wm, ndigits(d['conv'], d['vclass'], D10), timeout=600, mem_gb=3,
-                     bounds={'format': f, '* arguments': '-%d..%d / -2..%d' % (wm, wm, wm), 'value class': d['vclass'], 'literal text': 'optional byte before and after'},
+        f = fmt_of(d); wm = max(abs(d['width']) if d['wmode'] else 0, abs(d['prec']) if d['pmode'] in (1, 2) else 0, 1)
+        seps = (len(qs) * 7 + 1) % 4
+        qs.append(PQ('e2e[%s].v%d' % (f, d['vclass']), 'harness_layout', {'PINS': pins(d), 'SEPS': seps}, wm, ndigits(d['conv'], d['vclass'], D10), timeout=600, mem_gb=3,
+                     bounds={'format': f + ' (* arguments in parentheses)', 'value class': d['vclass'], 'literal text': 'any byte before / after the directive as pinned (SEPS)'},
                      what='printf_format + do_printf_* on "%s": output equals ISO C' % f))
     for ds in positional_family(tier):
         f = ' '.join(fmt_of(d) for d in ds)
-        qs.append(PQ('e2e[%s]' % f, 'harness_layout', {'PINS': pins(*ds)}, 4, D10, ndir=len(ds), timeout=600, mem_gb=3,
-                     bounds={'format': f, 'values': 'decimal below 10^%d in magnitude, else any' % D10}, what='numbered arguments: "%s" prints each designated argument' % f))
+        qs.append(PQ('e2e[%s]' % f, 'harness_layout', {'PINS': pins(*ds), 'SEPS': 2 ** (len(ds) + 1) - 2 - (len(qs) % 2) * 2 ** len(ds)}, 4, max(ndigits(d['conv'], d['vclass'], D10) for d in ds), ndir=len(ds), timeout=900, mem_gb=4,
+                     bounds={'format': f, 'values': 'an argument designated once: decimal below 10^%d in magnitude (argument 1) / boundary constant (2, 3) / any value (x, c, s); designated twice: boundary constant' % D10}, what='numbered arguments: "%s" prints each designated argument' % f))
     # ---------------------------------------------------------------- pop_arg
-    for k in ([3] if quick else [3, 4]):
-        qs.append(Q('poparg.k%d' % k, 'c19_printf', 'c19_printf.c', 'harness_poparg', defs={'K': k}, unwind=12, inline_witness=True, timeout=900, mem_gb=4,
-                    bounds={'fetches': k, 'argument words': 4, 'types': 'int long void* signed/unsigned char/short unsigned unsigned long', 'mode': 'all sequential, or all positional with positions 1..4'},
-                    what='pop_arg: every history of %d fetches returns the designated argument converted to the requested type (positional cache included)' % k))
-    qs.append(Q('poparg.known.widening', 'c19_printf', 'c19_printf.c', 'harness_poparg', defs={'K': 2, 'KF_WIDENING': 1}, unwind=12, kind='known', known='printf-positional-widening',
-                match='pop_arg yields the argument', timeout=600, mem_gb=4, bounds={'fetches': 2},
-                what='known finding: an argument first cached with a narrow type (e.g. %2$d caching argument 1 as int) is later read with a wider one (%1$ld / %1$s)'))
+    KN = ['int', 'long', 'void*', 'signed char', 'short', 'unsigned char', 'unsigned short', 'unsigned', 'unsigned long']
+    seqs = [(0, 0, 0), (1, 0, 1), (2, 0, 3), (3, 3, 0), (1, 2, 8), (7, 5, 7), (6, 4, 0), (8, 1, 2)]
+    if not quick: seqs = sorted(set(seqs) | {(a, b, c) for a in (0, 1, 2, 3, 6) for b in (0, 1, 2, 3, 6) for c in (0, 1, 2, 3, 6)})
+    for sq in seqs:
+        qs.append(Q('poparg.%d%d%d' % sq, 'c19_printf', 'c19_printf.c', 'harness_poparg', defs={'K': 3, 'KINDS': '{%d,%d,%d}' % sq}, unwind=12, inline_witness=True, timeout=900, mem_gb=4,
+                    bounds={'fetches': 3, 'requested types': ', '.join(KN[k] for k in sq), 'argument words': '4, arbitrary', 'mode': 'all sequential, or all positional with solver-chosen positions 1..4'},
+                    what='pop_arg<%s>, <%s>, <%s> in sequence: each returns the designated argument converted to the requested type (positional cache included)' % tuple(KN[k] for k in sq)))
+    qs.append(Q('poparg.known.widening', 'c19_printf', 'c19_printf.c', 'harness_poparg', defs={'K': 2, 'KF_WIDENING': 1, 'KINDS': '{0,1}'}, unwind=12, kind='known', known='printf-positional-widening',
+                match='pop_arg yields the argument', timeout=600, mem_gb=4, bounds={'fetches': 2, 'requested types': 'int then long'},
+                what='known finding: an argument first cached with a narrow type (%2$d caches argument 1 as int) is later read with a wider one (%1$ld / %1$s)'))
     # ---------------------------------------------------------------- digit kernel
+    VIAS = ['print_digits', 'print_int<int64>', 'print_int<int32>']
     for r, dg in ((16, 16), (8, 22), (2, 64)):
-        qs.append(PQ('digits.r%d' % r, 'harness_digits', {'RADIX': r}, 6 if quick else 12, dg, bounds={'radix': r, 'value': 'any 64-bit magnitude, either sign; print_int<int64>/<int32> incl. the most negative value', 'width/precision': '0..%d' % (6 if quick else 12)},
-                     what='print_digits/print_int radix %d at full width' % r))
+        for via in range(3):
+            qs.append(PQ('digits.r%d.via%d' % (r, via), 'harness_digits', {'RADIX': r, 'VIA': via}, 6 if quick else 12, dg if via < 2 else (dg + 1) // 2,
+                         bounds={'radix': r, 'entry': VIAS[via], 'value': 'any 64-bit magnitude, either sign (print_int: incl. the most negative value)', 'width/precision': '0..%d' % (6 if quick else 12)},
+                         what='%s radix %d at full width' % (VIAS[via], r)))
     for dd in ([3] if quick else [3, 4, 5]):
-        qs.append(PQ('digits.r10.d%d' % dd, 'harness_digits', {'RADIX': 10, 'DMAX': 10 ** dd}, 6, dd, timeout=3000 if dd > 3 else 900, optional=dd > 4,
-                     bounds={'radix': 10, 'value': 'every magnitude below 10^%d, either sign' % dd, 'width/precision': '0..6'}, what='print_digits/print_int radix 10, all values below 10^%d' % dd))
+        for via in range(3):
+            qs.append(PQ('digits.r10.d%d.via%d' % (dd, via), 'harness_digits', {'RADIX': 10, 'DMAX': 10 ** dd, 'VIA': via}, 6, dd, timeout=3000 if dd > 3 else 900, optional=dd > 4,
+                         bounds={'radix': 10, 'entry': VIAS[via], 'value': 'every magnitude below 10^%d, either sign' % dd, 'width/precision': '0..6'}, what='%s radix 10, all values below 10^%d' % (VIAS[via], dd)))
     # ---------------------------------------------------------------- fmt()
-    for (t, dec, wm, inq) in FMT_TEMPLATES:
-        if quick and not inq: continue
-        fvs = [0] if quick else [0, 3, 4, 5]
-        if quick and t in ('{}', '{:x}', '{:0Dd}', 'a{}b{}c{}d'): fvs = [0, 3, 4]
+    for (t, fvs) in fmt_templates(tier):
         for fv in fvs:
-            dg = 64 if 'b' in t else 22 if 'o' in t else 16 if not dec else 20 if fv else D10
-            dg = max(dg, 20 if fv else D10) if dec else dg
+            m = re.findall(r':0?(\d+)', t); wm = max([int(x) for x in m if len(x) <= 2] + [0])
+            dec = bool(re.search(r'\{\d*(:0?\d*[di]?)?\}', t))
+            dg = max([64 if 'b}' in t else 0, 22 if 'o}' in t else 0, 16 if re.search(r'[xX]\}', t) else 0, (20 if fv else D10) if dec else 0, 1])
             b = max(wm, dg) + 2
             defs = {'TEMPLATE': '"%s"' % t, 'FV': fv}
             if dec: defs['DEC'] = 1
             qs.append(Q('fmt[%s].v%d' % (t, fv), 'c19_fmt', 'c19_fmt.c', 'harness_fmt', defs=defs, unwind=max(b, len(t) + 3),
                         unwind_fn=[(r'^ref_dec', dg + 2), (r'^ref_number', dg + 2), (r'^ref_(finish|at)', 8), (r'parse_fmt_spec|format_object|fmt_ref|spec_parse|harness', len(t) + 3)],
-                        inline_witness=True, timeout=600, mem_gb=3,
-                        bounds={'template': t, 'D': 'any digit', '?': 'any byte except braces', 'arguments': '(int, unsigned long, char): ' + ('any, decimal renderings below 10^%d in magnitude' % D10 if fv == 0 else 'boundary tuple #%d' % fv)},
-                        what='fmt("%s", int, unsigned long, char) renders per the documented grammar; malformed / out-of-range specs echoed' % t))
-    for t in ['{}', 'a{D}b', '{:x}']:
+                        inline_witness=True, timeout=900, mem_gb=3,
+                        bounds={'format': t, 'arguments': '(int, unsigned long, char): ' + ('any values' + (', decimal renderings below 10^%d in magnitude' % D10 if dec else '') if fv == 0 else 'boundary tuple #%d (0, 1, -1/max, min, max, ...)' % fv)},
+                        what='fmt("%s", int, unsigned long, char) renders per the documented grammar; malformed / out-of-range specs echoed unchanged' % t))
+    for t in ['{}', 'a{1}b', '{:x}']:
         qs.append(Q('fmt0[%s]' % t, 'c19_fmt', 'c19_fmt.c', 'harness_fmt', defs={'TEMPLATE': '"%s"' % t, 'NARGS': 0}, unwind=12, inline_witness=True, timeout=300, mem_gb=2,
                     bounds={'template': t, 'arguments': 'none'}, what='fmt("%s") without arguments echoes every spec' % t))
     # ---------------------------------------------------------------- logger
     for n in (range(0, 25) if not quick else [0, 1, 6, 7, 8, 9, 13, 14, 15, 16, 20, 21, 22, 24]):
-        qs.append(Q('log.len%d' % n, 'c19_log', 'c19_log.c', 'harness_log', defs={'LEN': n}, unwind=max(n, 8) + 3, inline_witness=True, timeout=600, mem_gb=3,
-                    bounds={'message length': n, 'Limit': 8, 'pieces': '3 of solver-chosen lengths, each through append(char) / append(const char*) / operator<<(const char*)', 'endlog': 'with and without'},
-                    what='stack_buffer_logger<sink,8>: a %d-byte message reaches the sink complete, in order, in chunks of at most 7 bytes' % n))
+        splits = sorted({(p0, p1) for p0 in (0, 1, 3, 6, 7, 8, 14, n) if p0 <= n for p1 in (0, 1, 6, 7, 8, n - p0) if 0 <= p1 <= n - p0})
+        if quick: splits = splits[(n % 3)::5]
+        for (p0, p1) in splits:
+            qs.append(Q('log.len%d.%d-%d-%d' % (n, p0, p1, n - p0 - p1), 'c19_log', 'c19_log.c', 'harness_log', defs={'LEN': n, 'P0': p0, 'P1': p1}, unwind=max(n, 8) + 3, inline_witness=True, timeout=600, mem_gb=3,
+                        bounds={'message length': n, 'Limit': 8, 'pieces': '%d + %d + %d bytes, each through a solver-chosen path: append(char) / append(const char*) / operator<<(const char*)' % (p0, p1, n - p0 - p1), 'endlog': 'with and without', 'content': 'any non-NUL bytes'},
+                        what='stack_buffer_logger<sink,8>: a %d-byte message appended as %d+%d+%d reaches the sink complete, in order, in chunks of at most 7 bytes' % (n, p0, p1, n - p0 - p1)))
     ALLQ[:] = qs
     return qs
 
@@ -250,7 +275,7 @@ def validation_queries(tier):
             V('digits10.validate', 'harness_digits', d={'RADIX': 10}), V('digits16.validate', 'harness_digits', d={'RADIX': 16}),
             V('fmt.validate', 'harness_fmt', 'c19_fmt', {'TEMPLATE': '"a{D:0Dx}b{}c{:?}{D}"', 'DEC': 1}), V('fmt2.validate', 'harness_fmt', 'c19_fmt', {'TEMPLATE': '"{:c}{:1Db}{{{D:X}"'}),
             V('log.validate', 'harness_log', 'c19_log', {'LEN': 17})]
-VALIDATE_VECTORS = 20
+VALIDATE_VECTORS = 40
 LEVEL = 'model_checking'
 TECHNIQUE = ('bounded model checking (CBMC, SAT) of the clang-lowered real code against an independent ISO C interpreter written in the harness (cross-checked against glibc snprintf natively on every run); '
              'the sink compares every byte on the spot with the byte the interpreter expects at that position')
